@@ -681,8 +681,8 @@ func (i *interpreter) spawn(fr *frame, pos token.Pos, fn value, args []value) {
 				return
 			}
 			if tp, ok := r.(targetPanic); ok {
-				// an unrecovered panic in a goroutine kills the program
-				panic(&engineAbort{kind: "panic", msg: "unrecovered panic in goroutine: " + toString(tp.v)})
+				// an unrecovered panic in a goroutine kills the program: no frame of the spawner can recover it
+				panic(&engineAbort{kind: "goroutine-panic", msg: "unrecovered panic in goroutine: " + toString(tp.v)})
 			}
 			panic(r)
 		}
